@@ -1,7 +1,8 @@
 """C02 — swap probabilities equal the exact permanent ratios.
 
 Theorems: coq/theorems/C02.v (spec coq/spec/PermS.v, model coq/model/PermM.v, proofs
-coq/proofs/PermSpecP.v + PermP.v).  Tie: functional lock-step of the REAL
+coq/proofs/PermSpecP.v, PermP.v, PermQuickP.v, PermGlynnP.v, PermIdleP.v, PermTieP.v and the
+bounded sweeps PermBound{A,B,C}P.v).  Tie: functional lock-step of the REAL
 REPEX_state.inf_retis / quick_prob / find_blocks / permanent_prob / fast_glynn_perm and of the
 `prob` property after real add_traj / swap / lock / unlock sequences against the extracted
 model, and against the extracted specification Pspec; an independent Python permanent over
@@ -24,24 +25,33 @@ META = {
     "level": "proof",
     "technique": "Coq: permanent by first-row expansion as independent spec; Laplace expansion along any row/column, "
                  "multilinearity and transpose invariance proved for all sizes; executable Q model of inf_retis / quick_prob / "
-                 "find_blocks / permanent_prob / fast_glynn_perm refined to the spec (bounded, vm_compute) + exhaustive "
-                 "small-scope lock-step of the extracted model, the extracted spec and the real REPEX_state methods",
-    "text": "Unbounded theorems about the specification Pspec (row and column sums are 1 = Laplace expansion along an arbitrary "
-            "row/column, zero weight gives zero probability, invariance under rescaling one path's weights) and about the model "
-            "(quick_prob is doubly stochastic on every staircase of any size, busy rows/columns of inf_retis are zero and the idle "
-            "block is the result on the unlocked sub-matrix, independence of the argsort tie order on the fast path); bounded "
-            "theorems with the bound in the statement (inf_retis = Pspec for ALL 0/1 staircases up to N plus-ensembles, every row "
-            "order and lock subset; weighted staircases through the block / Glynn path; Glynn = permanent and Gray-code loop = "
-            "plain Glynn sum for n <= 4 on symbolic entries). The model and the spec are tied to /repo on every run: exhaustive "
-            "0/1 staircases x all lock subsets x row orders, random positive integer weights (block sizes 2..9), direct calls of "
-            "each method, and prob after real add_traj/swap/lock/unlock sequences.",
-    "note": "Trusted: Coq kernel; extraction (ExtrOcamlBasic) + ocaml/c02_driver.ml; this harness (generators, encoders, the "
-            "Python integer permanent used as third oracle, tolerance 1e-12). Floating point is not modelled: the model computes "
-            "in exact Q, inputs are small integers (all comparisons in the code are then exact) and results are compared within "
-            "1e-12. np.argsort's tie order is machine dependent (AVX-512 network, not stable): the model uses the stable order and "
-            "independence from the tie order is proved for the fast path, checked exhaustively (bounded) for the block path and "
-            "re-checked at run time with numpy's actual answers. random_prob (blocks > 12 paths, Monte Carlo) is a Section variable "
-            "outside the exactness claim. General-size quick_prob = Pspec and Glynn = perm are bounded results (see theorems). "
+                 "find_blocks / permanent_prob / fast_glynn_perm: structural theorems for all sizes (busy rows/columns zero, idle-block "
+                 "reduction, quick_prob doubly stochastic) + refinement to the spec by exhaustive vm_compute sweeps (bound in the "
+                 "statement) + Glynn = permanent on symbolic entries (n <= 4); exhaustive small-scope lock-step of the extracted model, "
+                 "the extracted spec and the real REPEX_state methods on every run",
+    "text": "Unbounded (every size): Pspec rows and columns sum to 1 when perm != 0 (Laplace expansion of the permanent along an "
+            "arbitrary row and column, transpose invariance), zero weight gives zero probability, Pspec is unchanged and perm scales "
+            "when one path's weights are rescaled, Pspec >= 0; in the model of inf_retis busy rows and columns are zero for every "
+            "input and every argsort answer, and the result is the re-insertion of inf_retis on the idle sub-matrix alone; quick_prob "
+            "(fast path) is doubly stochastic, non-negative and zero where the weight is zero for every n x n matrix whose column c "
+            "has at most c zeros, in particular every matchable staircase of any size with any non-zero weights; the Qred "
+            "normalisation inside the Glynn loop is immaterial. Bounded by computation, bound in the statement: inf_retis = Pspec on "
+            "the idle block and zero elsewhere for ALL 0/1 staircases with 1..5 plus-ensembles x every row order x every busy set "
+            "(234 k states), 6 plus-ensembles x every support multiset x every busy set (59 k), weighted staircases through "
+            "find_blocks / permanent_prob / Glynn with up to 3 plus-ensembles (weights {1,2} x every busy set, weights {1,2,3} idle); "
+            "independence of np.argsort's tie order (0/1 up to 4, weighted {1,2} up to 3 plus-ensembles); the Gray-code loop of "
+            "fast_glynn_perm and the plain Glynn sum equal the permanent for every rational matrix of size <= 4 (symbolic, field). "
+            "The model and the spec are tied to /repo on every run: exhaustive 0/1 staircases x all lock subsets x row orders, random "
+            "positive integer weights (block sizes 2..9), direct calls of each method, prob after real add_traj/swap/lock/unlock "
+            "sequences, and the statement itself evaluated on the implementation's outputs against exact rational permanents.",
+    "note": "Trusted: Coq kernel (vm_compute for the bounded sweeps); extraction (ExtrOcamlBasic) + ocaml/c02_driver.ml; this harness "
+            "(generators, encoders, the Python integer permanent used as third oracle, tolerance 1e-12). Floating point is not "
+            "modelled: the model computes in exact Q, inputs are small integers (all comparisons in the code are then exact) and "
+            "results are compared within 1e-12. np.argsort's tie order is machine dependent (AVX-512 network, not stable): the model "
+            "uses the stable order; independence from the tie order is a bounded theorem and is re-checked at run time with numpy's "
+            "actual answers. random_prob (blocks > 12 paths, Monte Carlo) is a Section variable outside the exactness claim. Partial: "
+            "general-size quick_prob = Pspec (only doubly-stochasticity is proved for all sizes; equality is bounded) and general-size "
+            "Glynn = perm (n <= 4 symbolic; larger sizes checked by computation in the correspondence run) are not proved. "
             "Non-staircase zero patterns (observation O1) are outside the property and only reported as an observation.",
     "design_ref": "4/C02",
 }
@@ -771,12 +781,12 @@ def run(ctx):
         "extraction: ExtrOcamlBasic only; ocaml/util.ml + ocaml/c02_driver.ml",
         "py/checks/c02.py generators, encoders, the exact integer permanent (third oracle), tolerance 1e-12",
         "random_prob (blocks > 12, Monte Carlo) is a Section variable of the model: outside the exactness claim",
-        "Glynn's formula = permanent is proved for n <= 4 symbolically and checked by computation beyond; floating point not modelled",
+        "Glynn's formula = permanent is proved for n <= 4 symbolically and checked by computation (model vs exact permanent, sizes <= 8) beyond; floating point not modelled",
     ]
     ctx.assumptions += [
         "weights are small positive integers so every ==/!= test of the code is exact; results compared within 1e-12",
         "reachable family: [0-] row has only column 0, plus rows are prefix staircases, ghost row/column zero and locked",
-        "np.argsort tie order: model uses the stable order; independence proved (fast path) / checked (block path)",
+        "np.argsort tie order: model uses the stable order; independence is a bounded theorem (0/1 up to 4, weighted {1,2} up to 3 plus-ensembles) and is re-checked with numpy's actual answers in this run",
     ]
 
 
